@@ -11,7 +11,7 @@ pub mod tamper;
 pub mod ty;
 
 pub use canon::{canon, canon_strict, has_transient_field, scramble_transients, with_transient_defaults};
-pub use dec::{ref_annotate, ref_decode, ref_decode_forms, ref_zero_width_demand, Annot, AnnotKind, DecErr, ErrKind};
+pub use dec::{ref_annotate, ref_decode, ref_decode_forms, ref_zero_width_demand, ref_backref_cost, Annot, AnnotKind, DecErr, ErrKind};
 pub use enc::{ref_encode, ref_encode_forms, ref_encode_quirks, EncErr, Quirks};
 pub use genval::{gen_raw, gen_val, GenCtx};
 pub use rng::Rng;
